@@ -46,7 +46,9 @@ Proof.
   - apply veq_refl_scalar; assumption.
   - rewrite veq_VList. apply veq_list_refl; assumption.
   - rewrite veq_VTuple. apply veq_list_refl; assumption.
-  - rewrite veq_VSet. apply veq_list_refl; assumption.
+  - rewrite veq_VSet, Nat.eqb_refl. cbn [andb].
+    apply forallb_forall. intros x Hx. apply existsb_exists. exists x. split; [exact Hx|].
+    rewrite Forall_forall in H. apply H. exact Hx.
   - rewrite veq_VDict. induction H as [|[k x] r [Hk Hx] Hr IH]; cbn; [reflexivity|].
     cbn in Hk, Hx. rewrite Hk, Hx. exact IH.
   - rewrite veq_VObj, cref_eqb_refl. cbn.
@@ -73,8 +75,11 @@ Proof.
     revert l0 Hab. induction H as [|x r Hx Hr IH]; intros [|y r'] Hab; cbn in *; try discriminate Hab; [reflexivity|].
     apply andb_true_iff in Hab as [H1 H2]. rewrite (Hx _ H1), (IH _ H2). reflexivity.
   - destruct b; try discriminate Hab. rewrite veq_VSet in *.
-    revert l0 Hab. induction H as [|x r Hx Hr IH]; intros [|y r'] Hab; cbn in *; try discriminate Hab; [reflexivity|].
-    apply andb_true_iff in Hab as [H1 H2]. rewrite (Hx _ H1), (IH _ H2). reflexivity.
+    apply andb_true_iff in Hab as [Hlen Hab]. rewrite Hlen. cbn [andb].
+    apply forallb_forall. intros x Hx. rewrite forallb_forall in Hab.
+    specialize (Hab x Hx). apply existsb_exists in Hab as [y [Hy Hxy]].
+    apply existsb_exists. exists y. split; [exact Hy|].
+    rewrite Forall_forall in H. apply (H x Hx). exact Hxy.
   - destruct b; try discriminate Hab. rewrite veq_VDict in *.
     revert kv0 Hab. induction H as [|[k x] r [Hk Hx] Hr IH]; intros [|[k' x'] r'] Hab; cbn in *; try discriminate Hab; [reflexivity|].
     apply andb_true_iff in Hab as [H12 H3]. apply andb_true_iff in H12 as [H1 H2].
